@@ -10,6 +10,7 @@ TARGETS = {
     "t_tet": dict(variant="asan", srcs=["t_tet.cc"], libs=RC),
     "t_hex": dict(variant="asan", srcs=["t_hex.cc"], libs=RC),
     "t_registry": dict(variant="asan", srcs=["t_registry.cc"], libs=RC),
+    "t_copy": dict(variant="asan", srcs=["t_copy.cc"], libs=RC),
     "t_handles": dict(variant="opt", srcs=["t_handles.cc"], libs="-lpthread"),
 }
 
@@ -302,6 +303,26 @@ CHECKS = {
         technique="rapidcheck model-based stateful testing of the property registry",
         level_text="Model-based state machine test with full observation after every step, under ASan/LSan.",
         level_note="SmartTagger is a thin wrapper over private properties and is not driven separately.",
+    ),
+    "C13": dict(
+        kind="rc_program", target="t_copy", level="exploration",
+        quick=dict(workers=16, max_success=1500, max_size=100, len_scale=0.7, timeout=900),
+        thorough=dict(workers=16, max_success=20000, max_size=100, len_scale=2.0, timeout=3600),
+        rule=("cases = programs over up to three polyhedral meshes: kernel history ops (as C01, incl. pending deletions, mode "
+              "and bottom-up toggles) and shared / private / persistent property ops addressed to the active mesh, "
+              "interleaved with copy construction, assignment into a mesh that has its own history, properties and "
+              "caller-held handles, self-assignment, chains of copies, plus tetrahedral <-> polyhedral assignment. "
+              "Right after a copy: handle-exact raw snapshot (flags, definitions, incidences, positions), deletion "
+              "state, modes and bottom-up flags equal; persistent properties found by name with equal values in "
+              "their own storage, non-persistent ones absent; old handles of an assigned-to mesh sized to the new "
+              "counts, readable, no longer findable by name. After EVERY later op on one mesh the full snapshot "
+              "(incl. all property arrays) of every other mesh must be unchanged. non-trivial = a copy/assign with >=1 "
+              "persistent and >=1 non-persistent live property followed by >=3 mutations on each side; distinct = "
+              "distinct program hash"),
+        assumptions=["the mutated mesh must itself conform to the reference model, otherwise the case is discarded (counted)"],
+        technique="rapidcheck multi-mesh programs + snapshot equality after copy + invariance of the other meshes' snapshots after every op",
+        level_text="Deep-copy and independence checked as an invariant over histories on both sides of every copy, under ASan/LSan.",
+        level_note="Hexahedral <-> polyhedral assignment shares the same code path (templated GeometryKernel::operator=) and is exercised only through the tetrahedral case.",
     ),
 }
 
